@@ -27,7 +27,16 @@ def stage(ctx):
                           simulate="num=%d" % ctx.pick(700, 6000), depth=wl + 2, seed=ctx.seed, timeout=1500)
     # every discover-driven run of 6 events in which two nodes compete for the single slots of a third
     lim = ctx.behaviours("net", "Gen_Topology", "Gen_TopologyLimits.cfg", timeout=900)
-    allb = walks + disc + lim
+    # directed walks: one node with two candidates for its single parent slot (the second answer finds the slot taken:
+    # retry as uncle, or give the peer up) -- discover-only, no closes, depth 10
+    up = ctx.behaviours("net", "Gen_Topology", "Gen_TopologyUpstream.cfg", constants={"MaxOps": 10, "Depth": 10},
+                        simulate="num=%d" % ctx.pick(300, 3000), depth=12, seed=ctx.seed, timeout=900)
+    nretry = sum(1 for b in up if any(str(e.get("v", "")).startswith("retry:") for e in b))
+    if nretry < 5:
+        from vlib import MachineryError
+        raise MachineryError("vacuity: the upstream-slot-taken retry was generated only %d times" % nretry)
+    ctx.notes.append("topology: runs in which a response finds the parent/uncle slot taken and retries: %d" % nretry)
+    allb = walks + disc + lim + up
     inp = ctx.path("in", "topology.ndjson")
     with open(inp, "w") as fh:
         for b in allb:
